@@ -1,7 +1,6 @@
-pub mod refbits;
+pub use vbase::{refbits, schema, subject, values, zoo_c05, zoo_c16, zoo_def};
 pub mod report;
-pub mod subject;
 pub mod shard;
 pub mod refper;
-pub mod schema;
 pub mod sweep;
+pub mod refper_vectors;
